@@ -26,7 +26,7 @@ pub fn generate(r: &mut Rng, tier: Tier) -> Scenario {
         property: "C03".into(),
         variant: "t1-graph".into(),
         world,
-        personality: crate::reader::Personality::Strict,
+        personality: if r.chance(1, 4) { crate::reader::Personality::Lsp } else { crate::reader::Personality::Strict },
         reader_faults: vec![],
         entropy,
         history: vec![],
@@ -68,8 +68,7 @@ pub fn check(scn: &Scenario, stats: &mut Stats) -> Vec<Violation> {
     let pasted = world::paste(&scn.world, &[]);
     let rp = refmodel::parse(&pasted);
     for &e in &scn.entropy {
-        let mut spec = LintSpec::new(&scn.world, e, Api::Coded);
-        spec.personality = scn.personality;
+        let mut spec = LintSpec::of(scn, e, Api::Coded);
         spec.want_snapshot = true;
         let o = lint::run(&spec);
         stats.inc("t1_incarnations");
